@@ -492,6 +492,9 @@ class _FragmentCompiler:
             domain_process = PyRTLProcess(is_comb=domain_name == "comb")
             lhs_masks = LHSMaskCollector()
             lhs_masks.visit_stmt(domain_stmts)
+            # Only signals driven by statements are reset; the data output of a memory read port
+            # is not (it has no reset in the netlist either).
+            reset_masks = list(lhs_masks.masks())
 
             if isinstance(fragment, MemoryInstance):
                 for port in fragment._read_ports:
@@ -543,7 +546,7 @@ class _FragmentCompiler:
                     reset_emitter.append(f"def run():")
                     with reset_emitter.indent():
                         reset_emitter.append("pass")
-                        for (signal, mask) in lhs_masks.masks():
+                        for (signal, mask) in reset_masks:
                             if signal.reset_less:
                                 continue
                             if signal.shape().signed and (mask & 1 << (len(signal) - 1)):
@@ -569,7 +572,7 @@ class _FragmentCompiler:
                     emitter.append(f"if {rst}:")
                     with emitter.indent():
                         emitter.append("pass")
-                        for (signal, _) in lhs_masks.masks():
+                        for (signal, _) in reset_masks:
                             if not signal.reset_less:
                                 signal_index = self.state.get_signal(signal)
                                 emitter.append(f"next_{signal_index} = {signal.init}")
